@@ -7,8 +7,9 @@ EXTENDS Session, TraceLib
 
 CONSTANT NB           \* number of brokers (Home <- HomeMap)
 HomeMap == StdHome(NB)
-VARIABLE l
-vars == <<allvars, l>>
+VARIABLES l,
+          pend      \* [Clients -> sequence of notifications]: what each client is owed from the concurrent phase so far
+vars == <<allvars, l, pend>>
 
 PktEq(lg, ex) ==
     /\ lg.t = ex.t
@@ -50,28 +51,45 @@ NotDelivery(p) == p.t \notin {"pub", "replay"}
 ConcOK(ev) == SyncEq(ev.acks, SelectSeq(out'[ev.c].s, NotDelivery))
 Fin(ev) == IF Has(ev, "conc") THEN ConcOK(ev) ELSE OutOK(ev)
 
+(* C18 under overlapping requests: while requests of different connections are being served concurrently, a watcher
+   whose own watch does not change is owed, for every connection x and channel, exactly the notifications x's own
+   transitions produce, in x's order ("in the order in which each connection made those transitions"); across
+   different connections the arrival order is free.  `pend' accumulates what the specification prescribes, a
+   "concdone" event carries what each client's inbox held when the concurrent phase was over. *)
+SetAsSeq(S) == IF S = {} THEN <<>> ELSE CHOOSE f \in [1..Cardinality(S) -> S] : \A x \in S : \E i \in 1..Cardinality(S) : f[i] = x
+NoPend == [c \in Clients |-> <<>>]
+PendNext(ev) == pend' = IF Has(ev, "conc") THEN [w \in Clients |-> pend[w] \o SetAsSeq(out'[w].a)] ELSE pend
+About(s, x, ch) == SelectSeq(s, LAMBDA p : p.who = x /\ p.ch = ch)
+SameNotifs(g, p) == /\ Len(g) = Len(p)
+                    /\ \A i \in DOMAIN g : g[i].ev = p[i].ev /\ g[i].user = p[i].user
+NotifOK(g, p) == \A x \in Clients : \A ch \in { q.ch : q \in ToSet(p) } \cup { q.ch : q \in ToSet(g) } :
+                    SameNotifs(About(g, x, ch), About(p, x, ch))
+
 IsEvent(e) == l <= Len(Log) /\ Log[l].e = e /\ l' = l + 1
 Ev == Log[l]
 ReqOf(ev) == [k |-> ev.k, w |-> ev.w, syn |-> ev.syn, me0 |-> ev.me0, ttl |-> ev.ttl]
 
 TrReset   == IsEvent("reset") /\ conn' = [c \in Clients |-> "new"] /\ user' = [c \in Clients |-> ""]
                 /\ will' = [c \in Clients |-> NoWill] /\ held' = [c \in Clients |-> {}] /\ trie' = {}
-                /\ links' = [c \in Clients |-> {}] /\ store' = [b \in Brokers |-> <<>>] /\ out' = Quiet
-TrConnect == IsEvent("connect")  /\ Connect(Ev.c, Ev.u, Ev.will) /\ Fin(Ev)
-TrSub     == IsEvent("sub")      /\ Subscribe(Ev.c, Ev.k, Ev.w, Ev.syn, Ev.last, Ev.win) /\ Fin(Ev)
-TrUnsub   == IsEvent("unsub")    /\ Unsubscribe(Ev.c, Ev.k, Ev.w, Ev.syn) /\ Fin(Ev)
-TrPub     == IsEvent("pub")      /\ Publish(Ev.c, ReqOf(Ev), Ev.via, Ev.retain, Ev.qos, Ev.p) /\ Fin(Ev)
-TrLink    == IsEvent("link")     /\ Link(Ev.c, Ev.name, Ev.name # "toolong", ReqOf(Ev), Ev.sub, 1) /\ Fin(Ev)
-TrPres    == IsEvent("presence") /\ Presence(Ev.c, Ev.k, Ev.w, Ev.syn, Ev.status, Ev.chg, 1) /\ Fin(Ev)
-TrEnd     == IsEvent("end")      /\ End(Ev.c) /\ Fin(Ev)
+                /\ links' = [c \in Clients |-> {}] /\ store' = [b \in Brokers |-> <<>>] /\ out' = Quiet /\ pend' = NoPend
+TrConnect == IsEvent("connect")  /\ Connect(Ev.c, Ev.u, Ev.will) /\ Fin(Ev) /\ PendNext(Ev)
+TrSub     == IsEvent("sub")      /\ Subscribe(Ev.c, Ev.k, Ev.w, Ev.syn, Ev.last, Ev.win) /\ Fin(Ev) /\ PendNext(Ev)
+TrUnsub   == IsEvent("unsub")    /\ Unsubscribe(Ev.c, Ev.k, Ev.w, Ev.syn) /\ Fin(Ev) /\ PendNext(Ev)
+TrPub     == IsEvent("pub")      /\ Publish(Ev.c, ReqOf(Ev), Ev.via, Ev.retain, Ev.qos, Ev.p) /\ Fin(Ev) /\ PendNext(Ev)
+TrLink    == IsEvent("link")     /\ Link(Ev.c, Ev.name, Ev.name # "toolong", ReqOf(Ev), Ev.sub, 1) /\ Fin(Ev) /\ PendNext(Ev)
+TrPres    == IsEvent("presence") /\ Presence(Ev.c, Ev.k, Ev.w, Ev.syn, Ev.status, Ev.chg, 1) /\ Fin(Ev) /\ PendNext(Ev)
+TrEnd     == IsEvent("end")      /\ End(Ev.c) /\ Fin(Ev) /\ PendNext(Ev)
 (* C09: the broker is still there (the event exists), the hostile connection is closed or answered, everybody else is
    served exactly as the model says - in this step and in all later ones *)
-TrCluster == IsEvent("cluster")  /\ ~Ev.panic /\ ClusterHostile /\ OutOK(Ev)       \* a panic on the gossip goroutine is a process exit
-TrHostile == IsEvent("hostile")  /\ Hostile(Ev.c, Ev.cls, Ev.closed) /\ OutOK(Ev)
+TrCluster == IsEvent("cluster")  /\ ~Ev.panic /\ ClusterHostile /\ OutOK(Ev)       \* a panic on the gossip goroutine is a process exit /\ PendNext(Ev)
+TrHostile == IsEvent("hostile")  /\ Hostile(Ev.c, Ev.cls, Ev.closed) /\ OutOK(Ev) /\ PendNext(Ev)
 
-TraceInit == SessionInit /\ l = 1 /\ MarkInit
+TrConcDone == IsEvent("concdone") /\ UNCHANGED allvars /\ pend' = NoPend
+                 /\ \A w \in Clients : NotifOK(Ev.got[w], pend[w])
+
+TraceInit == SessionInit /\ l = 1 /\ pend = NoPend /\ MarkInit
 (* a "broker-died" event (the process exited, hung or ran out of its memory ceiling) has no action: never explained *)
-TraceNext == TrReset \/ TrConnect \/ TrSub \/ TrUnsub \/ TrPub \/ TrLink \/ TrPres \/ TrEnd \/ TrHostile \/ TrCluster
+TraceNext == TrReset \/ TrConnect \/ TrSub \/ TrUnsub \/ TrPub \/ TrLink \/ TrPres \/ TrEnd \/ TrHostile \/ TrCluster \/ TrConcDone
 MarkC     == Mark(l)
 TraceInv  == TrieIsHeld /\ NothingLeftBehind
 =============================================================================
